@@ -23,6 +23,9 @@ package main
 //   cloneCloseAfterWait        every `close(ch)` of a `chan string` has, earlier in its statement list, a statement that waits
 //                              (calls `….Wait()` itself or calls a function of the file that does, transitively); a deferred
 //                              close counts when a waiting statement follows it
+//   cloneSendsUnconditional    (HARD obligation, Props/C09.lean) no send on a `chan string` is the communication of a `select`
+//                              case: every construct is handed over by a plain blocking send — no `default`, no timer, no
+//                              alternative that lets a construct be dropped
 //   cloneCollectorBeforeWait   every `go` that starts a collector (a function receiving from a `chan string`) has a waiting
 //                              statement later in its statement list and none before it
 
@@ -318,6 +321,15 @@ func cloneFacts() (string, error) {
 		}
 		return false
 	}
+	knownChan := func(e ast.Expr) bool {
+		switch x := e.(type) {
+		case *ast.Ident:
+			return chanElem[x.Name] != ""
+		case *ast.SelectorExpr:
+			return chanElem[x.Sel.Name] != ""
+		}
+		return false
+	}
 	receivesString := func(body ast.Node) bool {
 		found := false
 		ast.Inspect(body, func(m ast.Node) bool {
@@ -358,6 +370,20 @@ func cloneFacts() (string, error) {
 	isCloseOfStringChan := func(call *ast.CallExpr) bool {
 		id, ok := call.Fun.(*ast.Ident)
 		return ok && id.Name == "close" && len(call.Args) == 1 && isStringChan(call.Args[0])
+	}
+	sendsUnconditional := true
+	for name := range reach {
+		for _, fn := range funcs[name] {
+			ast.Inspect(fn.Body, func(n ast.Node) bool {
+				if cc, ok := n.(*ast.CommClause); ok {
+					// a channel whose element type cannot be read off syntactically counts as the construct channel
+					if snd, ok := cc.Comm.(*ast.SendStmt); ok && (isStringChan(snd.Chan) || !knownChan(snd.Chan)) {
+						sendsUnconditional = false
+					}
+				}
+				return true
+			})
+		}
 	}
 	addBeforeGo, deferDoneFirst, closeAfterWait, collectorBeforeWait := true, true, true, true
 	checkList := func(list []ast.Stmt) {
@@ -479,6 +505,7 @@ func cloneFacts() (string, error) {
 	fmt.Fprintf(&b, "def cloneDeferDoneFirst : Bool := %v\n\n", deferDoneFirst)
 	fmt.Fprintf(&b, "def cloneCloseAfterWait : Bool := %v\n\n", closeAfterWait)
 	fmt.Fprintf(&b, "def cloneCollectorBeforeWait : Bool := %v\n\n", collectorBeforeWait)
+	fmt.Fprintf(&b, "def cloneSendsUnconditional : Bool := %v\n\n", sendsUnconditional)
 	b.WriteString("end PolyVerif.Gen\n")
 	return b.String(), nil
 }
